@@ -226,3 +226,50 @@ Theorem intersects_cell_one_sided :
   (forall e, In e (q_edges s) -> ~ meets e T) /\
   brute_contains point crossing_sign vertex_crossing s ref ref_inside (cell_center T) = false.
 Proof. exact intersects_cell_safe. Qed.
+
+(** * Both directions for an edge-free index cell queried exactly: when the target IS index cell
+      [pos] and that cell lists no edge of the shape, ContainsCell is exactly "the centre is
+      inside" (brute force) and IntersectsCell is true. (The seeded change C06-mut4 - the
+      id shortcut of boundaryApproxIntersects moved before the no-edges test - breaks this.) *)
+Lemma locate_own_cell cells pos : cells_ok cells -> 0 <= pos < lenZ cells ->
+  locate_cellid cells (nthZ cells pos 0) = Indexed pos.
+Proof.
+  intros Hok Hpos. pose proof Hok as (Hv & Hd).
+  pose proof (Hv pos Hpos) as Hvp. pose proof (range_bounds _ (proj1 Hvp)) as Hb.
+  pose proof (locate_cellid_spec cells (nthZ cells pos 0) Hok ltac:(lia)) as Hs.
+  destruct (locate_cellid cells (nthZ cells pos 0)) as [k|k|].
+  - destruct Hs as (Hk & Hlo & Hhi). f_equal.
+    destruct (Z.lt_trichotomy k pos) as [L|[E|L]]; [exfalso|exact E|exfalso].
+    + specialize (Hd k pos ltac:(lia) ltac:(lia)). lia.
+    + specialize (Hd pos k ltac:(lia) ltac:(lia)). lia.
+  - exfalso. destruct Hs as (Hk & Hlo & Hhi & Hne & _).
+    pose proof (range_bounds _ (proj1 (Hv k Hk))) as Hbk.
+    destruct (Z.lt_trichotomy k pos) as [L|[E|L]].
+    + specialize (Hd k pos ltac:(lia) ltac:(lia)). lia.
+    + subst k. apply Hne. reflexivity.
+    + specialize (Hd pos k ltac:(lia) ltac:(lia)). lia.
+  - exfalso. specialize (Hs pos Hpos). lia.
+Qed.
+
+Theorem cell_relations_edge_free :
+  forall (point : Type) (crossing_sign : point -> point -> point -> point -> crossing)
+         (vertex_crossing : point -> point -> point -> point -> bool) (cell_center : Z -> point)
+         (approx_meets : point * point -> Z -> bool)
+         (s : qshape point) (ref : point) (ref_inside : bool) (idx : index) (pos : Z) (cl : clipped),
+  index_ok point crossing_sign vertex_crossing cell_center [s] (fun _ => ref) (fun _ => ref_inside) idx ->
+  0 <= pos < lenZ idx -> entry idx pos 0 = Some cl -> cl_edges cl = [] ->
+  contains_cell point crossing_sign vertex_crossing cell_center approx_meets s idx (cell_id idx pos) =
+    Some (brute_contains point crossing_sign vertex_crossing s ref ref_inside (cell_center (cell_id idx pos))) /\
+  intersects_cell point crossing_sign vertex_crossing cell_center approx_meets s idx (cell_id idx pos) = Some true.
+Proof.
+  intros point crossing_sign vertex_crossing cell_center approx_meets s ref ref_inside idx pos cl Hok Hpos He Hnil.
+  pose proof (ok_cells _ _ _ _ _ _ _ _ Hok) as Hcells.
+  pose proof (locate_own_cell (cell_ids idx) pos Hcells ltac:(rewrite cell_ids_len; exact Hpos)) as Hl.
+  rewrite cell_ids_nth in Hl.
+  pose proof (ok_center _ _ _ _ _ _ _ _ Hok pos 0 Hpos ltac:(cbn; lia)) as H1. rewrite He in H1.
+  unfold contains_cell, intersects_cell. rewrite Hl.
+  unfold cell_id, entry in *. destruct (nth_cell idx pos) as [id cell]. cbn [fst snd] in *.
+  rewrite He. rewrite Z.eqb_refl.
+  unfold boundary_approx_intersects, iterator_contains_point. rewrite Hnil. cbn [lenZ length Z.of_nat Z.eqb].
+  split; [|reflexivity]. f_equal. exact H1.
+Qed.
